@@ -431,7 +431,8 @@ func mustReject(ks *tinkpb.Keyset) string {
 			return "unknown status"
 		}
 		switch k.GetOutputPrefixType() {
-		case tinkpb.OutputPrefixType_TINK, tinkpb.OutputPrefixType_LEGACY, tinkpb.OutputPrefixType_RAW, tinkpb.OutputPrefixType_CRUNCHY:
+		case tinkpb.OutputPrefixType_TINK, tinkpb.OutputPrefixType_LEGACY, tinkpb.OutputPrefixType_RAW, tinkpb.OutputPrefixType_CRUNCHY,
+			tinkpb.OutputPrefixType_WITH_ID_REQUIREMENT: // accepted by Validate since /repo 4b80d2c (the key's parser decides)
 		default:
 			return "unknown prefix type"
 		}
@@ -490,7 +491,8 @@ func wellFormed(h *keyset.Handle) string {
 	}
 	for _, ki := range h.KeysetInfo().GetKeyInfo() {
 		switch ki.GetOutputPrefixType() {
-		case tinkpb.OutputPrefixType_TINK, tinkpb.OutputPrefixType_LEGACY, tinkpb.OutputPrefixType_RAW, tinkpb.OutputPrefixType_CRUNCHY:
+		case tinkpb.OutputPrefixType_TINK, tinkpb.OutputPrefixType_LEGACY, tinkpb.OutputPrefixType_RAW, tinkpb.OutputPrefixType_CRUNCHY,
+			tinkpb.OutputPrefixType_WITH_ID_REQUIREMENT:
 		default:
 			return "unknown prefix type in handle"
 		}
